@@ -52,6 +52,7 @@ type Frame struct {
 	preVals  map[ssa.Value]Val
 	locals   map[string][]localDef
 	callSites map[ssa.Instruction]int
+	vacDone  map[int]bool
 }
 
 const maxInlineDepth = 6
